@@ -2,6 +2,7 @@
   Driver family `span` (property C16): ops over one current lark entry and one current file.
 
     tree <sexp>                          (sexp as in family `entry`)                      → ok <entries>
+    restore                              replace the current entry by what EntryStored.save → load restores (C16.restore)  → ok | <error>
     file <exists 0|1> <pathhex> <contenthex>                                              → ok <lines>
     smat <pathhex>                       Nodes.source_map(full_path)                      → ok l,c,el,ec | <error>
     quoteat <pathhex>                    quotation ErrorRender prints for the node        → ok <hex of "\n".join(lines)> | ok [] | <error>
@@ -20,12 +21,14 @@
 import Tranp.Driver.Common
 import Tranp.Driver.Entry
 import Tranp.Model.Quotation
+import Tranp.Model.JsonCodec
 import Tranp.Model.Hull
 
 namespace Tranp.Driver.Span
 open Tranp Tranp.Lark Tranp.Quote Tranp.Driver
 
 structure St where
+  t : LarkEntry := .empty
   v : View := view .empty
   paths : List (Str × View) := []
   fileExists : Bool := false
@@ -73,8 +76,14 @@ def step (st : St) : List String → St × String
     match Entry.parseSexp (sx.splitOn " ") with
     | some (e, []) =>
       let v := view e
-      ({ st with v := v, paths := entryCache v }, s!"ok {Entry.sizeOfEntry e}")
+      ({ st with t := e, v := v, paths := entryCache v }, s!"ok {Entry.sizeOfEntry e}")
     | _ => (st, "bad-op")
+  | ["restore"] =>
+    match storeLoadText st.t with
+    | .ok t' =>
+      let v := view t'
+      ({ st with t := t', v := v, paths := entryCache v }, "ok")
+    | .error e => (st, e.toString)
   | ["file", ex, p, c] =>
     match Str.unhex p, Str.unhex c with
     | some p', some c' => ({ st with fileExists := ex == "1", filepath := p', content := c' }, s!"ok {(readlines c').length}")
